@@ -34,7 +34,7 @@ from vlib.common import ToolError, build_wild, log, run_wild, save_replay, scrat
 
 PROP = "C14"
 META = {
-    "ready": False,
+    "ready": True,
     "level": "model_checking",
     "technique": "TLA+ case table of relaxable x86-64 instruction forms with their specified effect on 64-bit words (X86Relax.tla) enumerated by TLC; every case executed natively as linked by the real wild (the CPU is the oracle), the applied rewrite read back with objdump, GNU ld as sanity of the test programs",
     "level_text": "TLC enumerates every combination of GOT-indirect instruction form (10 ALU/mov operations x 32/64-bit, call*, jmp*), relocation style, destination register (9 in quick, all 16 in thorough, including rsp), symbol kind (absolute via --defsym and via .set, local/hidden/default definitions, undefined weak), output kind (non-PIE, static PIE) and value class (0x1000 .. 2^31-1, 2^31, 2^32-1, 2^32, ...); the psABI rewrite table is model-checked safe on all of them; each case is linked by the real wild and executed, comparing destination register and arithmetic flags with the specified effect and with the un-relaxable register form executed by the same CPU.",
